@@ -227,13 +227,16 @@ func newFinishedHash(version uint16, cipherSuite *cipherSuite) finishedHash {
 	var prf func(result, secret, label, seed []byte)
 
 	if version == VersionGMSSL {
+		// GMSSL (0x0101) compares below TLS 1.2, so finishedHash.Write feeds the MD5
+		// hashes: they must be the no-op ones, as in newFinishedHashGM.
 		prf = prfAndHashForGM()
-		return finishedHash{sm3.New(), sm3.New(), nil, nil, buffer, version, prf}
-	} else {
-		prf, hash := prfAndHashForVersion(version, cipherSuite)
-		if hash != 0 {
-			return finishedHash{hash.New(), hash.New(), nil, nil, buffer, version, prf}
-		}
+		return finishedHash{sm3.New(), sm3.New(), new(nilMD5Hash), new(nilMD5Hash), buffer, version, prf}
+	}
+
+	// do not shadow prf: TLS 1.0/1.1 fall through to the MD5/SHA-1 variant below
+	prf, hash := prfAndHashForVersion(version, cipherSuite)
+	if hash != 0 {
+		return finishedHash{hash.New(), hash.New(), nil, nil, buffer, version, prf}
 	}
 
 	return finishedHash{sha1.New(), sha1.New(), md5.New(), md5.New(), buffer, version, prf}
